@@ -4,13 +4,17 @@ from oracledefs import lin
 LIN = Comp('lin', n_quick=256, n_thorough=2400, oracle=lin.lin_oracle, nontrivial=lin.lin_nontrivial, stats=lin.lin_stats,
            differential=False, chunk_min=8, timeout=1500, shrink=False)
 
+from oracledefs import engine as _eng6
+ENGINE_C06 = Comp('engine', n_quick=120, n_thorough=2000, oracle=_eng6.engine_oracle, nontrivial=_eng6.engine_nontrivial, stats=_eng6.engine_stats,
+                  chunk_min=10, timeout=900)
+
 reg(Prop('C06', 'Kevo.Props.C06',
          facts=['facts:locks.field.storage.*', 'facts:locks.field.memtable.*', 'facts:locks.field.wal.*', 'facts:locks.order',
                 'facts:locks.unpaired', 'facts:locks.excludedEntries', 'facts:locks.rotateWAL.seqHandover',
                 'facts:storage.Put.order', 'facts:storage.Delete.order', 'facts:storage.Get.order', 'facts:storage.rotateWAL.order',
                 'facts:storage.FlushMemTables.order', 'facts:storage.flushMemTable.order', 'facts:storage.scheduleFlush.order',
                 'facts:wal.Append.order', 'facts:wal.syncLocked.order', 'facts:wal.Close.order'],
-         components=[LIN],
+         components=[LIN, ENGINE_C06],
          fact_tags=['locks', 'storage', 'wal'],
          rule='component lin (implementation only, no model run), three scenario kinds. stress: N = 3..8 goroutines x 60..150 '
               '(thorough: ..500) put/get/delete calls with unique values on 1..5 keys against a REAL EngineFacade with memtables of '
